@@ -82,7 +82,7 @@ def on_context(p, r, exc, acc):
 
 
 # ------------------------------------------------------------------ compile-time half: binding site x read site over real templates
-SITES = ["body", "def", "nested-def", "block", "call-body", "control-line", "loop-target", "tag-attribute", "filter-argument"]
+SITES = ["body", "def", "nested-def", "block", "call-body", "control-line", "loop-target", "tag-attribute", "filter-argument", "nested-def-default"]
 
 
 def source(f):
@@ -115,6 +115,9 @@ def source(f):
         out.append('<%%def name="w2(q)">[${q}]</%%def><%%call expr="w2(val(%s))"></%%call>' % n)
     elif site == "filter-argument":
         out.append("${'' | pick(%s)}" % n)
+    elif site == "nested-def-default":
+        # the default of a def nested in another def is evaluated in the enclosing def's scope
+        out.append('<%%def name="o2()"><%%def name="i2(a=%s)">[${val(a)}]</%%def>${i2()}</%%def>${o2()}' % n)
     elif site == "control-line":
         out.append("%% for q in one(%s):\n[${val(q)}]\n%% endfor" % n)
     return "\n".join(out)
@@ -123,7 +126,7 @@ def source(f):
 def reference(f):
     """the statement's order"""
     site = f["site"]
-    in_def = site in ("def", "nested-def")
+    in_def = site in ("def", "nested-def", "nested-def-default")
     if site == "loop-target":
         return "loop"
     if in_def and f["def_arg"]:
@@ -182,7 +185,7 @@ def render_case(LKmod, RTmod, f):
 
 
 def h_scopes(p):
-    f = dict(name=["v", "format", "print"][p.choose(3, "name")], site=SITES[p.choose(len(SITES), "site")], strict=bool(p.choose(2, "strict")))
+    f = dict(name=["v", "format", "print", "n"][p.choose(4, "name")], site=SITES[p.choose(len(SITES), "site")], strict=bool(p.choose(2, "strict")))
     for k in ("in_context", "module_level", "imported", "body_assign", "def_arg", "page_arg", "outer_local"):
         f[k] = bool(p.choose(2, k))
     if f["def_arg"] and f["site"] not in ("def", "nested-def"):
